@@ -123,6 +123,20 @@ class C02(Prop):
             g[35] = g[35] or 2
             yield {"k": "rot", "kind": "list", "g": g, "ins": ops40, "pkg": "py"}
             yield {"k": "rot", "kind": "list", "g": g, "ins": ops40[:150], "pkg": "torch"}
+        # (c3) registers across the 64-bit word boundary: lists, polynomials and the identity map, masks on the high qubits
+        for n in (64, 65, 70):
+            ops = [[rng.randrange(4) if (t % 2 == 0 or rng.random() < 0.1) else 0 for _ in range(n)] + [rng.randrange(4)] for t in range(30)]
+            for w in ops[:10]:
+                w[n - 1] = w[n - 1] or 2
+            for t in range(4):
+                g = [rng.randrange(4) if (t % 2 == 0 or rng.random() < 0.1) else 0 for _ in range(n)] + [rng.choice((0, 2))]
+                g[n - 1] = g[n - 1] or 1
+                g[n - 2] = g[n - 2] or 3
+                yield {"k": "rot", "kind": "list", "g": g, "ins": ops}
+                yield {"k": "rot", "kind": "poly", "g": g, "ins": ops[:12], "pkg": "py"}
+                yield {"k": "rot", "kind": "map", "g": g, "ins": enum.idmap(n), "pkg": "py"}
+                qs = sorted(rng.sample(range(n - 6, n + 1), 3))
+                yield {"k": "rot", "kind": "list", "g": [g[q - 1] for q in qs] + [g[-1]], "qs": qs, "ins": ops, "pkg": "py"}
         # (d) rotation sequences with the inverse sequence appended (N = 3..5)
         for w in self.walks:
             yield w
